@@ -58,7 +58,9 @@ func main() {
 	if *prop == "all" {
 		ids = nil
 		for _, k := range sortedKeys(registry) {
-			ids = append(ids, k)
+			if strings.HasPrefix(k, "C") {
+				ids = append(ids, k)
+			}
 		}
 	}
 	for _, id := range ids {
